@@ -708,6 +708,17 @@ pub fn take_catch_trace() -> Vec<String> {
     CATCH_TRACE.with(|t| std::mem::take(&mut *t.borrow_mut()))
 }
 
+thread_local! {
+    static LAST_INTERRUPT_CATCHER: RefCell<String> = const { RefCell::new(String::new()) };
+}
+
+/// The caller of the last catch/3 goal that received the interrupt ball while the catch trace
+/// was on (empty if none did); reading clears it. A catch/3 that re-throws is followed by the
+/// next one, so what is left at the end is the goal that kept the ball.
+pub fn take_last_interrupt_catcher() -> String {
+    LAST_INTERRUPT_CATCHER.with(|t| std::mem::take(&mut *t.borrow_mut()))
+}
+
 /// `module:name/arity` of the predicate whose code contains address `addr`.
 pub fn predicate_at(machine: &Machine, addr: usize) -> String {
     let tbl = &machine.machine_st.arena.code_index_tbl;
@@ -750,6 +761,12 @@ pub(crate) fn on_get_ball(machine: &Machine) {
 
     let cp = st.stack.index_and_frame(st.e).prelude.cp;
     let who = predicate_at(machine, cp);
+
+    let interrupt = atom_as_cell!(atom!("$interrupt_thrown"));
+
+    if (0..st.ball.stub.cell_len()).any(|i| st.ball.stub[i] == interrupt) {
+        LAST_INTERRUPT_CATCHER.with(|t| *t.borrow_mut() = who.clone());
+    }
 
     CATCH_TRACE.with(|t| {
         let mut t = t.borrow_mut();
